@@ -81,6 +81,10 @@ def isStringLike : Arr → Bool
   | .dictionary _ _ => true
   | _ => false
 
+def LVal.isNull : LVal → Bool
+  | .null => true
+  | _ => false
+
 def isNullArr : Arr → Bool
   | .null _ => true
   | _ => false
@@ -247,7 +251,7 @@ def castVariant : TVariants → Option Nat → String → Arr → LVal → Claim
       (castKind k child v).andThen fun p => must (.enum (.str .transient (strBytes n)) p)
     else castVariant rest (sel.map (· - 1)) name child v
 def castKind : VKind → Arr → LVal → Claim
-  | .unit, child, v => if isNullArr child && v == .null then must .unit else na
+  | .unit, child, v => if isNullArr child && LVal.isNull v then must .unit else na
   | .newtype t, child, v => cast t child v
   | .tuple ts, child, v => tupleClaim (fun fs lfs => castTuple ts fs lfs) child v
   | .struct tfs, child, v => structClaim (TFields.names tfs) (fun fs lfs => castFields tfs fs lfs) child v
